@@ -2732,7 +2732,15 @@ where
                 if packet.return_code() == ConnectReturnCode::Accepted {
                     self.status = ConnectionStatus::Connected;
                     if packet.session_present() {
-                        events.extend(self.send_stored());
+                        let resent = self.send_stored();
+                        let any_sent = resent
+                            .iter()
+                            .any(|e| matches!(e, GenericEvent::RequestSendPacket { .. }));
+                        events.extend(resent);
+                        if any_sent {
+                            // retransmissions are sent packets: re-arm the PINGREQ timer
+                            self.send_post_process(&mut events);
+                        }
                     } else {
                         self.clear_store_related();
                     }
@@ -2817,7 +2825,15 @@ where
                     }
 
                     if packet.session_present() {
-                        events.extend(self.send_stored());
+                        let resent = self.send_stored();
+                        let any_sent = resent
+                            .iter()
+                            .any(|e| matches!(e, GenericEvent::RequestSendPacket { .. }));
+                        events.extend(resent);
+                        if any_sent {
+                            // retransmissions are sent packets: re-arm the PINGREQ timer
+                            self.send_post_process(&mut events);
+                        }
                     } else {
                         self.clear_store_related();
                     }
